@@ -31,6 +31,7 @@ type RunSpec struct {
 	All     bool                `json:"all"`
 	Force   bool                `json:"force"`
 	Entry   []string            `json:"entry"`    // package names, in the order given
+	From    string              `json:"from"`     // package whose directory is the working directory ("" = module root)
 	Patterns []string           `json:"patterns"` // explicit go/packages patterns (overrides Entry)
 	Gens    []GenSpec           `json:"gens"`
 	Globals map[string][]string `json:"globals"`
@@ -132,7 +133,13 @@ func doCall(kind, gen string, stateful bool, st *genState, c gengo.Context, obj 
 	logCall(Call{Kind: kind, Pkg: pkgPath, Gen: gen, Type: obj.Name(), Beh: beh, SumNow: digestFile(sumFile()), OwnNow: digestFile(ownFile(c, gen)), ObjKind: objKind(c, obj)})
 	render := func() {
 		if body, ok := curSpec.Bodies[key]; ok {
-			c.Render(snippet.Block(body))
+			if strings.HasPrefix(body, "SCRIPT:") {
+				if err := RenderScript(body[len("SCRIPT:"):], c.Render); err != nil {
+					panic(err)
+				}
+			} else {
+				c.Render(snippet.Block(body))
+			}
 		} else {
 			c.RenderT("\nfunc (@Type) Gen_@Gen() {}\n", snippet.IDArg("Type", obj), snippet.Arg("Gen", snippet.Block(ident(gen))))
 		}
@@ -149,6 +156,13 @@ func doCall(kind, gen string, stateful bool, st *genState, c gengo.Context, obj 
 				return errors.New("planned defer failure")
 			case "defer_die":
 				os.Exit(7)
+			case "defer_panic":
+				panic("planned panic in a deferred callback")
+			case "defer_nested_err":
+				c.Defer(func(c gengo.Context) error {
+					logCall(Call{Kind: "defer", Pkg: pkgPath, Gen: gen, Type: obj.Name() + "/nested", Beh: "nested_err", SumNow: digestFile(sumFile()), OwnNow: digestFile(ownFile(c, gen))})
+					return errors.New("planned nested defer failure")
+				})
 			case "defer_nested":
 				c.Defer(func(c gengo.Context) error {
 					logCall(Call{Kind: "defer", Pkg: pkgPath, Gen: gen, Type: obj.Name() + "/nested", Beh: "nested", SumNow: digestFile(sumFile()), OwnNow: digestFile(ownFile(c, gen))})
@@ -181,6 +195,14 @@ func doCall(kind, gen string, stateful bool, st *genState, c gengo.Context, obj 
 		c.Render(snippet.Block("\nfunc broken( {\n"))
 	case "die":
 		os.Exit(7)
+	case "panic":
+		panic("planned generator panic")
+	case "render_defer_panic":
+		render()
+		deferHelper("defer_panic")
+	case "render_defer_nested_err":
+		render()
+		deferHelper("defer_nested_err")
 	case "render_defer", "defer_ok":
 		render()
 		deferHelper("defer_ok")
@@ -303,7 +325,11 @@ func RunChild(args []string) error {
 		return err
 	}
 	curSpec = &spec
-	if err := os.Chdir(spec.Dir); err != nil {
+	cwd := spec.Dir
+	if spec.From != "" {
+		cwd = filepath.Join(spec.Dir, Layouts[spec.Layout][spec.From])
+	}
+	if err := os.Chdir(cwd); err != nil {
 		return err
 	}
 	devnull, _ := os.OpenFile(os.DevNull, os.O_WRONLY, 0)
@@ -319,21 +345,22 @@ func RunChild(args []string) error {
 	patterns := spec.Patterns
 	if len(patterns) == 0 {
 		for _, e := range spec.Entry {
-			d := Layouts[spec.Layout][e]
-			if d == "" {
+			rel, err := filepath.Rel(cwd, filepath.Join(spec.Dir, Layouts[spec.Layout][e]))
+			if err != nil {
+				return err
+			}
+			if rel == "." {
 				patterns = append(patterns, ".")
+			} else if strings.HasPrefix(rel, "..") {
+				patterns = append(patterns, filepath.ToSlash(rel))
 			} else {
-				patterns = append(patterns, "./"+d)
+				patterns = append(patterns, "./"+filepath.ToSlash(rel))
 			}
 		}
 	}
 	res := RunResult{}
 	func() {
-		defer func() {
-			if r := recover(); r != nil {
-				res.Panic = fmt.Sprint(r)
-			}
-		}()
+		// no recover: a panic inside gengo or a generator kills the process, as it would kill a real gengo run
 		ex, err := gengo.NewContext(&gengo.GeneratorArgs{Globals: spec.Globals, Entrypoint: patterns, OutputFileBaseName: Base, All: spec.All, Force: spec.Force})
 		if err != nil {
 			res.LoadErr = err.Error()
@@ -345,4 +372,43 @@ func RunChild(args []string) error {
 	}()
 	b, _ := json.Marshal(res)
 	return os.WriteFile(spec.Result, b, 0o644)
+}
+
+// ScriptPart is one piece of a scripted Render call: literal text, or a reference rendered through the naming system.
+type ScriptPart struct {
+	T  string `json:"t,omitempty"`
+	ID string `json:"id,omitempty"` // "<import path>.<Name>" rendered with snippet.ID
+	// Tmpl: text rendered with snippet.T; it is handed two arguments, "used" (= ID Used) and "unused" (= ID Unused), of which
+	// the template text mentions only @used
+	Tmpl   string `json:"tmpl,omitempty"`
+	Used   string `json:"used,omitempty"`
+	Unused string `json:"unused,omitempty"`
+}
+
+// RenderScript renders a JSON script [[part...]...]: one Render call per inner list.
+func RenderScript(js string, render func(snippet.Snippet)) error {
+	var calls [][]ScriptPart
+	if err := json.Unmarshal([]byte(js), &calls); err != nil {
+		return err
+	}
+	for _, parts := range calls {
+		ss := make([]snippet.Snippet, 0, len(parts))
+		for _, p := range parts {
+			if p.Tmpl != "" {
+				ss = append(ss, snippet.T(p.Tmpl, snippet.Args{"used": snippet.ID(p.Used), "unused": snippet.ID(p.Unused)}))
+			} else if p.ID != "" {
+				ss = append(ss, snippet.ID(p.ID))
+			} else {
+				ss = append(ss, snippet.Block(p.T))
+			}
+		}
+		render(snippet.Snippets(func(yield func(snippet.Snippet) bool) {
+			for _, s := range ss {
+				if !yield(s) {
+					return
+				}
+			}
+		}))
+	}
+	return nil
 }
